@@ -134,6 +134,11 @@ package snapshot
 //@   loop 0 step transform_is_field_4: fnum == 4 ==> wt == 2 && varintOK(data[p:]) && seqEq(d.transform, data[p+plen:p+plen+int(pval)]) && offset == p+plen+int(pval) && nameSame && flagsSame
 //@   loop 0 step other_fields_skipped: fnum != 1 && fnum != 2 && fnum != 3 && fnum != 4 ==> offset == p + fieldPayloadLen(data[p:], wt) && nameSame && transformSame && flagsSame
 
+// LoadData: what is allocated before anything is decoded is proportional to
+// the blob (the 1:10 estimate of the decompression buffer).
+//@ func LoadData
+//@   modifies heap
+//@   at_make assert allocation_proportional_to_the_blob: makeLen == 0 && makeCap <= 10*len(data)
 //@ func NewDBIFromData
 //@   nopanic
 
